@@ -386,6 +386,8 @@ func (fr *Frame) loopHeader(b *ssa.BasicBlock, li *loopInfo, phiEntry map[*ssa.P
 			nm = phi.Name()
 		}
 		fr.vals[phi] = fr.freshVal(fr.id+"/"+nm, phi.Type())
+		// references carried around the loop were allocated before this iteration
+		fr.assumeAllocated(fr.vals[phi], x.heapGet(fr.cur, allocName, "Int"))
 	}
 	// built-in facts: range index bounds
 	for _, in := range b.Instrs {
@@ -646,14 +648,18 @@ func (fr *Frame) instr(in ssa.Instruction) {
 			d := fr.defers[k]
 			fr.call(d, d.Common(), nil)
 		}
-	case *ssa.Go:
-		panic(unsupported("go statement"))
-	case *ssa.Select:
-		panic(unsupported("select statement"))
-	case *ssa.Send:
-		panic(unsupported("channel send"))
-	case *ssa.MakeChan:
-		panic(unsupported("make(chan)"))
+	case *ssa.Go, *ssa.Select, *ssa.Send, *ssa.MakeChan:
+		// Concurrency primitives are only tolerated in functions whose contract consists of
+		// call-site guards (lenient): they are treated as arbitrary sequential effects
+		// (everything reachable may change, results are arbitrary). No interleaving is modelled.
+		if fr.contract == nil || !fr.contract.Lenient || fr.inlined {
+			panic(unsupported("%T (goroutines/channels are outside the Go subset)", in))
+		}
+		x.trust("A-SEQ-LENIENT: " + fmt.Sprintf("%T", in) + " treated as an arbitrary sequential effect in " + x.fnKey)
+		fr.havocAll("concurrency primitive")
+		if v, ok := in.(ssa.Value); ok {
+			fr.vals[v] = fr.freshVal("conc", v.Type())
+		}
 	case *ssa.If:
 		c := fr.val(i.Cond).Term
 		b := fr.curBlock
@@ -741,7 +747,12 @@ func (fr *Frame) unop(i *ssa.UnOp) {
 			fr.vals[i] = leaf(i.Type(), "(- "+m.String()+" 1 "+v.Term+")")
 		}
 	case token.ARROW:
-		panic(unsupported("channel receive"))
+		if fr.contract == nil || !fr.contract.Lenient || fr.inlined {
+			panic(unsupported("channel receive"))
+		}
+		x.trust("A-SEQ-LENIENT: channel receive yields an arbitrary value in " + x.fnKey)
+		fr.havocAll("channel receive")
+		fr.vals[i] = fr.freshVal("recv", i.Type())
 	default:
 		panic(unsupported("unop %s", i.Op))
 	}
